@@ -2,7 +2,7 @@
 import os
 import itertools
 
-from ..stream import (ScriptedSocket, CaptureSocket, Budget, WouldBlock, compositions, cuts_to_segments,
+from ..stream import (ScriptedSocket, CaptureSocket, ShortWriteSocket, Budget, WouldBlock, compositions, cuts_to_segments,
                       interesting_offsets)
 
 LEVEL = 'fault_enumeration'
@@ -277,6 +277,34 @@ def run(ctx):
                     run_one(ctx, 'truncation', msgs, data, ends, segs, ending, t)
                     ctx.distinct(('t', tuple(spec_key(spec)), tuple(segs[:8]), ending, t))
     ctx.extra['short_stream_compositions'] = nshort
+    # the sending side: the kernel takes only part of what one send()/sendmsg() call offers (environment answer "short write");
+    # whatever calls the sender uses, the bytes that left are the complete frames
+    from pyworkers.remote import send_msg
+    nsend = 0
+    for spec in shorts + longs:
+        msgs = materialise(spec)
+        data, ends = build_stream(msgs)
+        first = ends[0]
+        menu = [[1], [3], [4], [5], [first - 1], [first], [first + 1], [1, 1], [4, 1], [5, 3], [1, 1, 1, 1, 1]]
+        for caps in menu:
+            if caps[0] <= 0:
+                continue
+            sock = ShortWriteSocket(caps)
+            err = None
+            try:
+                for m in msgs:
+                    send_msg(sock, m)
+            except BaseException as e:  # noqa
+                err = type(e).__name__
+            ctx.count()
+            nsend += 1
+            ctx.distinct(('w', tuple(spec_key(spec)), tuple(caps)))
+            ok = err is None and bytes(sock.buf) == data
+            ctx.outcome('short-write:%s' % ('ok' if ok else (err or 'bytes-lost')))
+            if not ok:
+                ctx.violation('STREAM/short-write/%s' % (err or 'bytes-lost'), {'msgs': describe(msgs), 'caps': caps, 'kind': 'short-write'},
+                              {'sent': len(sock.buf), 'error': err}, {'sent': len(data)}, engine='STREAM')
+    ctx.extra['short_write_runs'] = nsend
 
 
 def spec_key(spec):
@@ -295,6 +323,20 @@ def replay(ctx, rec):
         else:
             msgs.append(eval(d))
     data, ends = build_stream(msgs)
+    if c.get('kind') == 'short-write':
+        from pyworkers.remote import send_msg
+        sock = ShortWriteSocket(c['caps'])
+        err = None
+        try:
+            for m in msgs:
+                send_msg(sock, m)
+        except BaseException as e:  # noqa
+            err = type(e).__name__
+        ctx.count()
+        print('sent', len(sock.buf), 'of', len(data), 'error', err)
+        if err is not None or bytes(sock.buf) != data:
+            ctx.violation(rec['signature'], c, {'sent': len(sock.buf), 'error': err}, {'sent': len(data)}, engine='STREAM')
+        return
     segs = c['segments']
     if isinstance(segs, dict):
         raise SystemExit('segmentation too long to be stored; re-run the check')
